@@ -50,3 +50,48 @@ Proof.
   apply (warn_succeeds lbl_cmp lbl_ord ckey keqb keqb_spec cleb time_ord cleb_true cleb_false wlen).
   apply limit_break_off6. exact Hl.
 Qed.
+
+(* ---- through the querier ---- *)
+Lemma in_uinsert x y l : In x (uinsert y l) <-> x = y \/ In x l.
+Proof.
+  induction l as [|z r IH]; cbn [uinsert]; [cbn; intuition congruence|].
+  destruct (str_cmp y z) eqn:E; cbn [In]; try rewrite IH; try (intuition congruence).
+  apply (cmp_eq _ str_ord) in E. subst z. cbn [In]. intuition congruence.
+Qed.
+Lemma in_uset x l : In x (uset l) <-> In x l.
+Proof. induction l as [|y r IH]; cbn; [tauto|]. fold (uset r). rewrite in_uinsert, IH. intuition congruence. Qed.
+
+Lemma in_frame_warnings w (fs : list frame) : In w (warns (unbatch fs)) -> In w (frame_warnings fs).
+Proof.
+  unfold unbatch. induction fs as [|f r IH]; [intros []|].
+  unfold flatten_frames. cbn [map concat]. fold (flatten_frames r). rewrite warns_app. intros H. apply in_app_or in H as [H|H].
+  - unfold frame_warnings. cbn [map concat]. apply in_or_app. left.
+    destruct f as [l cs|ss|w']; cbn in H.
+    + destruct H.
+    + exfalso. induction ss as [|p ss IHs]; cbn in H; [exact H | apply IHs; exact H].
+    + exact H.
+  - unfold frame_warnings. cbn [map concat]. apply in_or_app. right. apply IH. exact H.
+Qed.
+
+Lemma warn_ne_abort : WARN <> ABORT.
+Proof. unfold WARN, ABORT. discriminate. Qed.
+
+Theorem querier_abort_fails lazy batch (scripts : list script) :
+  (exists s w, In s scripts /\ fail_warning s = Some w) ->
+  querier_select lazy false batch scripts = None.
+Proof.
+  intros Hf. unfold querier_select. rewrite abort_fails6; [reflexivity | lia | right; reflexivity | exact Hf].
+Qed.
+
+Theorem querier_warn_succeeds lazy batch (scripts : list script) :
+  exists ls ws,
+    querier_select lazy true batch scripts = Some (ls, ws)
+    /\ (forall s w, In s scripts -> fail_warning s = Some w -> In w ws)
+    /\ (forall s X cs, In s scripts -> sopen_err s = None -> In (X, cs) (presented false (rm_labels []) s) -> In X ls).
+Proof.
+  destruct (warn_succeeds6 lazy [] false WARN 0 batch scripts ltac:(lia) eq_refl warn_ne_abort) as (fs & E & Hw & Hs).
+  unfold querier_select. rewrite E. eexists. eexists. split; [reflexivity|]. split.
+  - intros s w Hin Hf. apply in_uset. apply in_frame_warnings. eapply Hw; eauto.
+  - intros s X cs Hin Ho Hp. destruct (Hs s X cs Hin Ho Hp) as [cs' [H1 _]].
+    apply in_map_iff. exists (X, cs'). split; [reflexivity | exact H1].
+Qed.
